@@ -4,6 +4,11 @@ A property is claimed iff lean/Props/<id>.lean and harness/props/<id>.py both ex
 import json, os
 here = os.path.dirname(os.path.dirname(os.path.abspath(__file__)))
 data = json.load(open(os.path.join(here, "tools", "manifest_data.json")))
+mdir = os.path.join(here, "tools", "manifest")
+if os.path.isdir(mdir):
+    for f in sorted(os.listdir(mdir)):
+        if f.endswith(".json"):
+            data[f[:-5]] = json.load(open(os.path.join(mdir, f)))
 props = [json.loads(l) for l in open(os.path.join(here, "properties.jsonl"))]
 checks, na = [], []
 for p in props:
@@ -27,7 +32,7 @@ for p in props:
         na.append({"property_id": pid, "reason": d.get("na_reason", "not claimed yet: the Lean model, theorems and correspondence for this property are not built; no other technique is substituted")})
 man = {
     "version": 1,
-    "setup_cmd": "cd lean && lake build CnfgenModel Lemmas Props driver",
+    "setup_cmd": "python3 tools/gen_roots.py && (test ! -f tools/extract_tables.py || python3 tools/extract_tables.py) && cd lean && lake build CnfgenModel Lemmas Props driver",
     "hooks": {"guard": "CNFGEN_VERIF", "enable": "none needed: all instrumentation is monkeypatching inside the harness process; the guard name is reserved and unused",
               "baseline_off_cmd": "python3 tools/baseline.py", "source_commits": [], "add_only": True},
     "engines": [{"name": "lean-model+correspondence", "path": "lean/ harness/ check",
